@@ -93,9 +93,19 @@ def run(chk):
         if not p.startswith(AP) or "closure" in p or "promoted" in p:
             continue
         lookups = [(blk, t) for blk, t in b.calls_to(r"AuthDatabase::get_user_by_token$")]
-        if not lookups:
-            continue
         name = p.split("::")[-1]
+        if not lookups:
+            # a stored session reached some other way (by uid): extending it is still only for a session that is valid now — re-arming an
+            # expired session revives its old token instead of issuing a new one
+            for blk, t in b.calls_to(r"session::Session::refresh$"):
+                d = describe(prog, b, t["args"][0])
+                if not desc_contains(d, lambda y: y[0] == "call" and core.re.search(r"AuthDatabase::get_user_by_\w+$", y[1]) is not None):
+                    continue
+                n += 1
+                how = validity_established(prog, b, blk, d)
+                chk.ob("R1.valid_before_confirm", p, f"{name}: Session::refresh only for a session that Session::valid() accepted", how is not None,
+                       f"{name} extends a stored session without knowing that it is still valid: an expired token is revived", where=b.where(blk))
+            continue
         # confirming / extending sites
         sites = []
         for blk, t in b.calls_to(r"session::Session::refresh$"):
